@@ -2,6 +2,7 @@ package rules
 
 import (
 	"go/types"
+	"strings"
 
 	"golang.org/x/tools/go/ssa"
 
@@ -259,4 +260,63 @@ func (c *Ctx) finalizeFn() *ssa.Function {
 		}
 	}
 	return best
+}
+
+// internalTarget finds a function of an internal package that the rules know
+// by the name the PUBLIC API gives it: by that name in the internal package,
+// or — when the internal function was renamed — as the function of that
+// package which the root package's exported function of that name calls
+// (the public name is the contract; the internal one is not).
+func (c *Ctx) internalTarget(pkgRel, name string) *ssa.Function {
+	if fn := c.P.Func(pkgRel, name); fn != nil {
+		return fn
+	}
+	root := c.P.SSAPkg("")
+	if root == nil {
+		return nil
+	}
+	pub := root.Func(name)
+	if pub == nil || pub.Blocks == nil {
+		return nil
+	}
+	var found *ssa.Function
+	for _, b := range pub.Blocks {
+		for _, ins := range b.Instrs {
+			if ci, ok := ins.(ssa.CallInstruction); ok {
+				if g := ci.Common().StaticCallee(); g != nil && strings.HasSuffix(pkgPathOf(g), "/"+pkgRel) && g.Signature.Recv() == nil {
+					if found != nil && found != g {
+						return nil
+					}
+					found = g
+				}
+			}
+		}
+	}
+	return found
+}
+
+// reproduceFn: the forwarding function of package fmtforward — by its name,
+// or the exported function there that takes (io.Writer, fmt.State, rune, any).
+func (c *Ctx) reproduceFn() *ssa.Function {
+	if fn := c.P.Func("internal/fmtforward", "ReproducePrintf"); fn != nil {
+		return fn
+	}
+	sp := c.P.SSAPkg("internal/fmtforward")
+	if sp == nil {
+		return nil
+	}
+	var found *ssa.Function
+	for _, mem := range sortedMembers(sp) {
+		fn, ok := mem.(*ssa.Function)
+		if !ok || fn.Blocks == nil || len(fn.Params) != 4 {
+			continue
+		}
+		if namedOf(fn.Params[0].Type()) == "io.Writer" && namedOf(fn.Params[1].Type()) == "fmt.State" {
+			if found != nil {
+				return nil
+			}
+			found = fn
+		}
+	}
+	return found
 }
